@@ -217,7 +217,14 @@ Relocs == {<<S("gd_unread_" \o b, PtrField(b), t), S("bb_old_" \o b, "bit", "fli
 (***************************************************************************)
 ResizeMap == {<<S("resize_dind", f, v)>> : f \in {"rsv_first", "rsv_quarter", "rsv_last"}, v \in {"zero", "plus1"}}
 
-C02Closed == Relocs \cup ResizeMap
+\* The closed Triples at the exact boundaries of the block range test: the pointer is set to the last valid / first invalid
+\* block number on either side (BlkBoundV, defined with C02Bounds below) and the bookkeeping hides the block it used to name,
+\* so that the out-of-range (or fixed-metadata) reference is the ONLY inconsistency: it must be detected by the range test of
+\* pass 1 itself and not by the redundancy of pass 5.
+BoundTriples == {<<S("file_small", f, v), S("bb_small", "bit", "flip_small"), S("gd_small", "bg_free_blocks", "plus1")>> :
+                    f \in {"ee_start", "ib0"}, v \in {"last_valid", "first_invalid", "first_data", "below_first_data"}}
+
+C02Closed == Relocs \cup ResizeMap \cup BoundTriples
 
 (***************************************************************************)
 (* C02 only: FIELD-WIDTH and RANGE-BOUNDARY catalogue (closed set          *)
@@ -271,6 +278,7 @@ C02Bounds ==
     ({[role |-> r, field |-> f[1], vc |-> f[2]] : r \in InodeRoles, f \in InodeBounds}
      \cup UNION {{[role |-> r, field |-> f[1], vc |-> f[2]] : f \in BlockRoleBounds[r]} : r \in DOMAIN BlockRoles}) \ Singles
 
+ASSUME \A t \in BoundTriples : t[1].vc \in BlkBoundV /\ t[1] \in C02Bounds
 \* every block-number field of an inode, of a tree block and of a descriptor is there, with every boundary class
 ASSUME \A f \in {"file_acl", "ee_start", "ee2_start", "ib0", "ib11", "ib_ind", "ib_dind", "ib_tind"} : \A v \in BlkBoundV : <<f, v>> \in InodeBounds
 ASSUME \A f \in {"bg_block_bitmap", "bg_inode_bitmap", "bg_inode_table"} : \A v \in BlkBoundV : <<f, v>> \in BlockRoleBounds["gd_mid"]
